@@ -275,15 +275,22 @@ OV_LOCALS = "int vi = 1; byte vy = 'a'; bool vb = true; string vs = \"s\"; int[]
 def ov_sets(tier):
     sets = []
     for n in (1, 2, 3):
-        for combo in itertools.permutations(OV_TYPES, n):
-            sets.append(combo)
+        combos = list(itertools.permutations(OV_TYPES, n))
+        if n == 3 and tier == 'quick':
+            combos = combos[::3]
+        sets.extend(combos)
     return sets
 
 
-def ov_program(combo, args):
-    fs = ''.join(f'empty o({t} p) {{ write({k}); }}\n' for k, t in enumerate(combo))
+def ov_program(combo, args, pos=None):
+    """The calling function is declared at position `pos` among the overloads (default: after all of them):
+    binding must not depend on where the caller stands."""
+    fs = [f'empty o({t} p) {{ write({k}); }}\n' for k, t in enumerate(combo)]
     calls = ' '.join(f"o({a}); write(',');" for a in args)
-    return fs + f'empty @is_you() {{ {OV_LOCALS} {calls} }}\n'
+    main = f'empty @is_you() {{ {OV_LOCALS} {calls} }}\n'
+    if pos is None:
+        pos = len(fs)
+    return ''.join(fs[:pos]) + main + ''.join(fs[pos:])
 
 
 OV2_TYPES = ['int', 'byte', 'const int[]', 'int[]']
@@ -301,7 +308,7 @@ def items(tier):
     out.append((i, 'scope'))
     i += 1
     sets = ov_sets(tier)
-    step = 12
+    step = 4
     for lo in range(0, len(sets), step):
         out.append((i, 'ov', lo, lo + step))
         i += 1
@@ -309,8 +316,8 @@ def items(tier):
     sets2 = [c for c in itertools.permutations(pairs, 2)]
     if tier == 'quick':
         sets2 = sets2[::6]
-    for lo in range(0, len(sets2), 20):
-        out.append((i, 'ov2', lo, lo + 20))
+    for lo in range(0, len(sets2), 5):
+        out.append((i, 'ov2', lo, lo + 5))
         i += 1
     return out
 
@@ -349,10 +356,16 @@ def run_item(item, tier):
                 if v:
                     st.count('by_context', f'overload/{v}')
             if ok_args:
-                src = ov_program(combo, ok_args)
-                prog = parse_program(src)
-                r = check_conformance(st, src, prog, [], 2, mon=False, tag=f'overload binding {list(combo)}')
-                st.add('bindings_executed', len(ok_args))
+                for pos in range(len(combo) + 1):
+                    src = ov_program(combo, ok_args, pos)
+                    if pos < len(combo):
+                        # the verdict must not depend on where the caller is declared
+                        v = compare(st, f'[overload set {list(combo)}, caller declared at position {pos}] accepted calls', src)
+                        if v != 'accept':
+                            continue
+                    prog = parse_program(src)
+                    check_conformance(st, src, prog, [], 2, mon=False, tag=f'overload binding {list(combo)} caller at {pos}')
+                    st.add('bindings_executed', len(ok_args))
         st.sample({'overload_set': list(sets[0]), 'arguments': OV_ARGS})
     elif kind == 'ov2':
         pairs = list(itertools.product(OV2_TYPES, repeat=2))
@@ -370,9 +383,12 @@ def run_item(item, tier):
                         ok.append((x, y))
             if ok:
                 calls = ' '.join(f"o({x}, {y}); write(',');" for x, y in ok)
-                src = fs + f'empty @is_you() {{ {OV_LOCALS} {calls} }}\n'
-                check_conformance(st, src, parse_program(src), [], 2, mon=False, tag=f'2-parameter overload binding {list(combo)}')
-                st.add('bindings_executed', len(ok))
+                fl = [f'empty o({a} p, {b} q) {{ write({k}); }}\n' for k, (a, b) in enumerate(combo)]
+                main = f'empty @is_you() {{ {OV_LOCALS} {calls} }}\n'
+                for pos in range(len(fl) + 1):
+                    src = ''.join(fl[:pos]) + main + ''.join(fl[pos:])
+                    check_conformance(st, src, parse_program(src), [], 2, mon=False, tag=f'2-parameter overload binding {list(combo)} caller at {pos}')
+                    st.add('bindings_executed', len(ok))
     return st
 
 
@@ -391,7 +407,7 @@ def coverage(total, tier):
             'atoms': len(ATOMS), 'declared_types': TYPES,
             'contexts': [name for name, _ in contexts()] + ['scope/shape rules (%d programs)' % len(SCOPE_PROGRAMS)],
             'binary_operator_grid': (f'{len(ATOMS)} x {len(ATOMS)}' if tier == 'thorough' else '34 x 34 (every 3rd atom + 6)') + f' atoms x {len(BINOPS)} operators',
-            'overloads': f'all ordered sets of <=3 one-parameter overloads over {OV_TYPES} x {len(OV_ARGS)} argument shapes; '
+            'overloads': f'all ordered sets of <=3 one-parameter overloads ' + ('' if tier == 'thorough' else '(every 3rd triple) ') + f'over {OV_TYPES} x {len(OV_ARGS)} argument shapes, the caller declared at every position among the overloads; '
                          f'ordered pairs of two-parameter overloads over {OV2_TYPES} ' + ('(all)' if tier == 'thorough' else '(every 6th)'),
         },
     }
